@@ -1568,6 +1568,15 @@ func (ms *MetricsSegment) FlushMetricNames() error {
 
 	filePath := fmt.Sprintf("%s%d.mnm", ms.metricsKeyBase, ms.Suffix)
 
+	// The segment directory is otherwise created only by the first block flush of the segment
+	// (FlushSummary): on restart the names of a segment that never flushed a block must not depend on
+	// the datapoint WAL being replayed first, or on there being a datapoint WAL at all.
+	err := os.MkdirAll(path.Dir(filePath), 0764)
+	if err != nil {
+		log.Errorf("FlushMetricNames: failed to create directory for filename=%v: err=%v", filePath, err)
+		return err
+	}
+
 	fd, err := os.OpenFile(filePath, os.O_WRONLY|os.O_CREATE, 0644)
 	if err != nil {
 		log.Errorf("FlushMetricNames: failed to open filename=%v: err=%v", filePath, err)
